@@ -53,6 +53,7 @@ type FuncSpec struct {
 	Line      int
 	SSAName   string
 	Behavior  string // contract case (ACSL-style behavior): "" for the default one
+	ProofOnly bool   // never picked at a call site
 	NoSafety  bool   // panics end the path instead of being obligations (termination-only behaviors)
 	Driver    bool   // driver-level target (ghost I/O, fail-stop obligations)
 	AssumePre bool   // callee preconditions assumed, not proved
@@ -70,7 +71,7 @@ func (s *FuncSpec) Key() string {
 }
 
 func (s *FuncSpec) HasContract() bool {
-	return len(s.Requires) > 0 || len(s.Ensures) > 0 || len(s.Assigns) > 0 || len(s.AssignGlobals) > 0 || s.Trusted
+	return len(s.Requires) > 0 || len(s.Ensures) > 0 || len(s.Assigns) > 0 || len(s.AssignGlobals) > 0 || len(s.GhostLogs) > 0 || len(s.Calls) > 0 || s.Trusted
 }
 
 // ---------------- loops ----------------
